@@ -30,6 +30,7 @@ DECIDED = [
     "PROV-1 in the constructors the fallback `if not name: name = self._id` dominates the store of _name on every path",
     "PROV-2 every value stored to _id is str(uuid.UUID(.)) or str(uuid.uuid4()); only __init__ and new_id store it; malformed ids are replaced by the constructors and rejected by new_id",
     "SIB-1 the id handling of Document, Section and Property has the same shape",
+    "PTR-1 remove() clears the parent pointer only after the list removal succeeded (the clash test of the name setters looks the siblings up through the parent pointer)",
     "IDENT-1 / OWN-1b shared with C03 (identity based removal; inherited list mutators)",
 ]
 NOT_DECIDED = ["__contains__ (name or deep ==) versus plain name equality", "uuid.UUID normalisation (library)"]
@@ -300,6 +301,32 @@ def run(prog, rep):
     body = [s for s in rm.node.body if not (isinstance(s, ast.Expr) and isinstance(s.value, ast.Constant))]
     rep.check(len(body) == 1 and isinstance(body[0], ast.Delete) and "index(" in unparse(body[0]), "IDENT-1", "SmartList.remove via index", "ok",
               "SmartList.remove no longer goes through the identity based index", rm.where)
+    # ----------------------------------------------------------------- PTR-1
+    rep.rule("PTR-1", "in Sectionable.remove / BaseSection.remove every store `<child>._parent = None` is dominated by the completed "
+                      "removal call <list>.remove(<child>) of the same child (a refused remove - the object is not a child here - "
+                      "must leave the pointer alone: the name setters find the siblings through it)")
+    from ..cfg import build_cfg
+    n_ptr = 0
+    for qn in ("base.Sectionable.remove", "section.BaseSection.remove"):
+        f = prog.func(qn)
+        rep.saw_function(f)
+        g = build_cfg(f)
+        x = Expander(f, g, only_locations=True)
+        for n in g.nodes:
+            st = n.ast
+            if not (n.kind == "stmt" and isinstance(st, ast.Assign) and len(st.targets) == 1 and isinstance(st.targets[0], ast.Attribute)
+                    and st.targets[0].attr == "_parent" and isinstance(st.value, ast.Constant) and st.value.value is None):
+                continue
+            child = x.text(st.targets[0].value, n)
+            n_ptr += 1
+            doms = [m for m in g.nodes if m.id != n.id and m.kind == "stmt" and g.dominates(m, n)
+                    and any(isinstance(c.func, ast.Attribute) and c.func.attr == "remove" and c.args and x.text(c.args[0], m) == child
+                            for c in calls_in(m.ast))]
+            rep.check(bool(doms), "PTR-1", "%s: `%s._parent = None` after the removal" % (f.short, child), "dominated by .remove(%s)" % child,
+                      "%s clears %s._parent before (or without) the list removal that can refuse: after a refused remove the object is "
+                      "still listed in its real parent but reports no parent" % (f.short, child), where(f, st),
+                      witness="b.remove(child of a) raises ValueError; afterwards child.name = <name of a sibling> is accepted")
+    rep.floor("PTR-1", n_ptr, 2, "parent pointer resets in the remove functions")
     rep.assume("uuid.UUID raises ValueError exactly for malformed ids and str() of it is the canonical form")
 
 
